@@ -1,6 +1,6 @@
 (* C26 — Dolt returns the same query results as the reference engine.  Property theorems only. *)
 From Coq Require Import ZArith List Bool Sorted Permutation.
-From Dolt Require Import C26.Model C26.Spec C26.Proofs.
+From Dolt Require Import C26.Model C26.Spec C26.Proofs C26.MergeSM C26.Corr C26.OracleModel.
 Import ListNotations.
 Local Open Scope Z_scope.
 
@@ -49,6 +49,37 @@ Theorem C26_merge_join_left_refuted :
     ~ Permutation (merge_join (S (length L + length R)) true L R) (nl_join true L R).
 Proof. exact merge_join_left_refuted. Qed.
 Print Assumptions C26_merge_join_left_refuted.
+
+Theorem C26_merge_join_sm_refines :
+  forall lo L R, side_sorted R ->
+    (exists n, merge_join_sm n lo L R = Some (merge_join (S (length L + length R)) lo L R))
+    /\ (forall n o, merge_join_sm n lo L R = Some o -> o = merge_join (S (length L + length R)) lo L R).
+Proof. exact merge_join_sm_refines. Qed.
+Print Assumptions C26_merge_join_sm_refines.
+
+Theorem C26_merge_join_sm_inner_spec :
+  forall n L R o, side_sorted L -> side_sorted R -> merge_join_sm n false L R = Some o ->
+    Permutation o (nl_join false L R).
+Proof. exact merge_join_sm_inner_spec. Qed.
+Print Assumptions C26_merge_join_sm_inner_spec.
+
+Theorem C26_merge_join_sm_left_spec_partial :
+  forall n L R o, side_sorted L -> side_sorted R -> (nulls L <= 1)%nat -> merge_join_sm n true L R = Some o ->
+    Permutation o (nl_join true L R).
+Proof. exact merge_join_sm_left_spec_partial. Qed.
+Print Assumptions C26_merge_join_sm_left_spec_partial.
+
+Theorem C26_merge_join_sm_left_refuted :
+  exists L R o, side_sorted L /\ side_sorted R /\ merge_join_sm 100 true L R = Some o /\ ~ Permutation o (nl_join true L R).
+Proof. exact merge_join_sm_left_refuted. Qed.
+Print Assumptions C26_merge_join_sm_left_refuted.
+
+Theorem C26_range_oracle_on_model :
+  forall tables c, (length (rc_rs c) <= length (rc_cols c))%nat ->
+    Forall (fun e : Z * Z => fst e <= snd e) (rc_encs c) ->
+    range_ok tables c (model_range tables c) = true.
+Proof. exact range_oracle_on_model. Qed.
+Print Assumptions C26_range_oracle_on_model.
 
 Theorem C26_lookup_join_spec :
   forall lo L R, side_sorted R -> lookup_join lo L R = nl_join lo L R.
